@@ -5,6 +5,8 @@
 //!   wsharness gen <family> <tier> <seed> generate cases of a family and run them
 
 mod endpoint;
+mod gen;
+mod pure;
 mod transport;
 mod util;
 
@@ -25,6 +27,10 @@ fn split_cases(text: &str) -> Vec<Vec<String>> {
             "io" | "res" | "wire" | "can" | "new" | "mon" | "out" => continue,
             _ => {}
         }
+        if cur.is_empty() && pure::PURE_TAGS.contains(&tag) {
+            cases.push(vec![t.to_string()]);
+            continue;
+        }
         cur.push(t.to_string());
         if t == "end" {
             cases.push(std::mem::take(&mut cur));
@@ -43,6 +49,14 @@ fn run_block(lines: &[String], out: &mut String) {
         .and_then(|l| l.split_whitespace().nth(1))
         .unwrap_or("endpoint")
         .to_string();
+    let tag = lines.first().and_then(|l| l.split_whitespace().next()).unwrap_or("");
+    if pure::PURE_TAGS.contains(&tag) {
+        out.push_str(&lines[0]);
+        out.push('\n');
+        out.push_str(&pure::eval(&lines[0]));
+        out.push('\n');
+        return;
+    }
     match fam.as_str() {
         _ => endpoint::run_case(lines, out),
     }
@@ -62,6 +76,32 @@ fn main() {
                     run_block(&c, &mut out);
                     so.write_all(out.as_bytes()).unwrap();
                 }
+            }
+        }
+        Some("gen") => {
+            // gen <family> <count> <seed>
+            let fam = args[2].clone();
+            let count: usize = args[3].parse().expect("count");
+            let seed: u64 = args[4].parse().expect("seed");
+            let mut rng = util::Rng::new(seed);
+            if let Some(prof) = fam.strip_prefix("ep:") {
+                let prof = gen::profile_of(prof);
+                for i in 0..count {
+                    let mut r = rng.fork();
+                    let c = gen::gen_endpoint(&mut r, prof, i);
+                    let mut out = String::new();
+                    run_block(&c, &mut out);
+                    so.write_all(out.as_bytes()).unwrap();
+                }
+            } else if let Some(pf) = fam.strip_prefix("pure:") {
+                for l in pure::generate(pf, count, &mut rng) {
+                    let mut out = String::new();
+                    run_block(&[l], &mut out);
+                    so.write_all(out.as_bytes()).unwrap();
+                }
+            } else {
+                eprintln!("unknown family {fam}");
+                std::process::exit(2);
             }
         }
         _ => {
